@@ -125,6 +125,8 @@ class SSet:
     def of(it):
         if isinstance(it, SSet):
             return SSet(dict(it.d))
+        if isinstance(it, GList):
+            it = SList.of(it)
         if isinstance(it, SList):
             out = {}
             for g, x in it.items:
@@ -185,6 +187,18 @@ class SSet:
         return "SSet{" + ", ".join(f"{k}:{g}" for k, g in self.d.items()) + "}"
 
 
+class GList(list):
+    """A real Python list (so native code accepts it) whose elements may carry guards: created by list
+    literals in interpreted code; `append` under a symbolic path condition records the guard."""
+
+    def __init__(self, it=()):
+        super().__init__(it)
+        self.guards = [True] * len(self)
+
+    def symbolic(self) -> bool:
+        return any(is_sym(g) for g in self.guards)
+
+
 class SList:
     """A list whose elements are present under guards, in a fixed order."""
 
@@ -197,6 +211,8 @@ class SList:
             return SList(list(it.items))
         if isinstance(it, SSet):
             return SList([(g, k) for k, g in sorted(it.d.items(), key=lambda kv: repr(kv[0]))])
+        if isinstance(it, GList):
+            return SList(list(zip(it.guards, list(it))))
         return SList([(True, x) for x in it])
 
     def is_concrete(self):
@@ -224,6 +240,11 @@ def merge(c, a, b):
         A, B = SSet.of(a), SSet.of(b)
         keys = list(A.d) + [k for k in B.d if k not in A.d]
         return SSet({k: bite(c, A.mem(k), B.mem(k)) for k in keys})
+    if isinstance(a, GList) and a is not b and isinstance(b, GList) and list(a)[: len(b)] == list(b):
+        # the same list object grown under the condition: guard the new tail
+        out = GList(list(a))
+        out.guards = list(b.guards) + [band(c, g) for g in a.guards[len(b):]]
+        return out
     if isinstance(a, (SList, list, tuple)) and isinstance(b, (SList, list, tuple)):
         A, B = SList.of(a), SList.of(b)
         # common prefix stays, the rest is guarded
